@@ -11,6 +11,7 @@ import (
 	"github.com/sarchlab/akita/v5/mem/cache/writethroughcache"
 	"github.com/sarchlab/akita/v5/mem/dram"
 	"github.com/sarchlab/akita/v5/mem/idealmemcontroller"
+	"github.com/sarchlab/akita/v5/mem/memcontrolprotocol"
 	"github.com/sarchlab/akita/v5/mem/rob"
 	"github.com/sarchlab/akita/v5/mem/simplebankedmemory"
 	"github.com/sarchlab/akita/v5/messaging"
@@ -69,6 +70,11 @@ type StackCfg struct {
 	ConnFreqMHz int       `json:"conn_freq_mhz"`
 	Tracing  bool         `json:"tracing"` // vis tracing on start (DB tracer)
 	WithCtrl bool         `json:"with_ctrl"` // add a control driver wired to every Control port
+	// FlushAt > 0 (needs WithCtrl and a write-back level): when the drivers have received FlushAt responses they stop
+	// issuing, the first write-back cache is drained, flushed with an address filter naming FlushLines lines, enabled
+	// again, and the drivers resume. Everything is driven from inside the simulation, so runs are reproducible.
+	FlushAt    int `json:"flush_at"`
+	FlushLines int `json:"flush_lines"`
 }
 
 // Stack is a built assembly.
@@ -353,7 +359,53 @@ func BuildStack(cfg StackCfg, dir string) *Stack {
 			c.PlugIn(m.GetPortByName("Control"))
 		}
 	}
+	if cfg.FlushAt > 0 && s.Ctrl != nil && len(s.WB) > 0 {
+		s.attachFlushScript()
+	}
 	return s
+}
+
+func (s *Stack) attachFlushScript() {
+	cfg := s.Cfg
+	target := s.WB[0].GetPortByName("Control").AsRemote()
+	var addrs []uint64
+	for i := 0; i < cfg.FlushLines; i++ {
+		d := s.Drivers[i%len(s.Drivers)].Spec()
+		addrs = append(addrs, d.AddrBase+uint64(i)*d.LineSize)
+	}
+	seen := 0
+	steps := []CtrlCmd{
+		{Dst: target, Command: memcontrolprotocol.CmdDrain},
+		{Dst: target, Command: memcontrolprotocol.CmdFlush, Addresses: addrs},
+		{Dst: target, Command: memcontrolprotocol.CmdEnable},
+	}
+	next := 0
+	for _, d := range s.Drivers {
+		d.OnRsp = func(RspEvent) {
+			seen++
+			if seen == cfg.FlushAt {
+				for _, x := range s.Drivers {
+					x.State.Halt = true
+				}
+				s.Ctrl.Send(steps[0])
+				next = 1
+			}
+		}
+	}
+	s.Ctrl.OnAck = func(CtrlAck) {
+		if next < len(steps) {
+			s.Ctrl.Send(steps[next])
+			next++
+			return
+		}
+		if next == len(steps) {
+			next++
+			for _, x := range s.Drivers {
+				x.State.Halt = false
+				x.TickLater()
+			}
+		}
+	}
 }
 
 // Start kicks every driver.
